@@ -6,7 +6,8 @@
 """
 import json, os, shutil, subprocess, sys, time
 
-REPO = "/repo"
+REPO = os.environ.get("VERIF_REPO", "/repo")
+VERIF = os.path.dirname(os.path.dirname(os.path.abspath(__file__)))
 ENV = dict(os.environ, GOFLAGS="-mod=mod", GOPROXY="off")
 
 
@@ -68,7 +69,7 @@ def detect(d, tier="quick", props=None):
             return {"error": "patch does not apply: " + o[-300:]}
         for p in props:
             t0 = time.time()
-            rc, o = sh("cd /verif && ./check %s %s" % (p, tier), timeout=4000)
+            rc, o = sh("cd %s && ./check %s %s" % (VERIF, p, tier), timeout=4000)
             lines = [l for l in o.splitlines() if l.startswith(("VIOLATION", "KNOWN-FINDING", "OK "))]
             out[p] = {"rc": rc, "lines": lines, "wall": round(time.time() - t0, 1)}
     finally:
@@ -76,8 +77,26 @@ def detect(d, tier="quick", props=None):
     return out
 
 
+def matrix(tier="quick"):
+    """Run, for every seeded change, the check of its own property (and record which other checks see it)."""
+    seeded = os.path.join(VERIF, "seeded")
+    results = {}
+    for name in sorted(os.listdir(seeded)):
+        d = os.path.join(seeded, name)
+        if not os.path.isfile(os.path.join(d, "patch.diff")):
+            continue
+        r = detect(d, tier)
+        results[name] = r
+        print(name, json.dumps(r), flush=True)
+    json.dump(results, open(os.path.join(VERIF, "seeded", "RESULTS-%s.json" % tier), "w"), indent=1)
+    missed = [k for k, v in results.items() if not v or not any(x["rc"] == 1 for x in v.values() if isinstance(x, dict))]
+    print("MISSED:", missed)
+
+
 if __name__ == "__main__":
-    if sys.argv[1] == "validate":
+    if sys.argv[1] == "matrix":
+        matrix(sys.argv[2] if len(sys.argv) > 2 else "quick")
+    elif sys.argv[1] == "validate":
         for d in sys.argv[2:]:
             r = validate(d)
             print(json.dumps(r))
